@@ -44,7 +44,8 @@ Inductive shape :=
 | SUnion (l : list shape)
 | SIntersect (l : list shape)
 | SSubtract (a b : shape)
-| STranslate (s : shape) (t : vec3 Q).
+| STranslate (s : shape) (t : vec3 Q)
+| SVLine (pts : list (vec3 Q * Q)).              (* sdf.VarryingThicknessLine: points with radii *)
 
 (* the model: the generated functions at the carrier Q *)
 Fixpoint eval (s : shape) : vec3 Q -> Q :=
@@ -60,6 +61,7 @@ Fixpoint eval (s : shape) : vec3 Q -> Q :=
   | SIntersect l => Intersect (map eval l)
   | SSubtract a b => Subtract (eval a) (eval b)
   | STranslate s t => Translate (eval s) t
+  | SVLine pts => VarryingThicknessLine (map (fun pr => mkLinePoint (fst pr) (snd pr)) pts)
   end.
 
 (* ---- closed-form membership, independent of the generated formulas.  Lt inside, Eq on the surface, Gt outside *)
@@ -90,6 +92,13 @@ Definition cone_side (a b : vec3 Q) (r1 r2 : Q) (p : vec3 Q) : comparison :=
                 if Qle_bool s 0 || Qle_bool 1 s then m else qmin m (A * s * s + B * s + C) in
   m ?= 0.
 
+(* polyline with radii: inside one of the rounded cones between consecutive points (no operator code involved) *)
+Fixpoint vline_side (pts : list (vec3 Q * Q)) (p : vec3 Q) : comparison :=
+  match pts with
+  | u :: ((w :: _) as rest) => cmp_min (cone_side (fst u) (fst w) (snd u) (snd w) p) (vline_side rest p)
+  | _ => Gt
+  end.
+
 Fixpoint side (s : shape) (p : vec3 Q) : comparison :=
   match s with
   | SSphere c r => d2 p c ?= qsq r
@@ -115,6 +124,7 @@ Fixpoint side (s : shape) (p : vec3 Q) : comparison :=
   | SIntersect l => fold_right (fun x acc => cmp_max (side x p) acc) Lt l
   | SSubtract a b => cmp_max (side a p) (cmp_opp (side b p))
   | STranslate s t => side s (V (v3x p - v3x t) (v3y p - v3y t) (v3z p - v3z t))
+  | SVLine pts => vline_side pts p
   end.
 
 Inductive case :=
